@@ -476,6 +476,8 @@ impl<'a> Runner<'a> {
                         1 => true,
                         _ => last || ci % 2 == 1,
                     };
+                    // many small unread chunks fill the peer's send buffer: read before it blocks
+                    let now = now || s.backlog > 40;
                     if now {
                         for _ in 0..20000 {
                             if self.whole() {
